@@ -22,6 +22,9 @@ type genProfile struct {
 	noExplicit bool // no explicit revisions
 	park       bool // allow parking of the post-rotation flush
 	checkVHash *bool
+	cfgHook    func(t *rapid.T, c *Cfg) // last word on the configuration (C15: served subsets, keys per bucket)
+	kinds      []string                 // overrides the op mix
+	compress   bool // values and sizes focused on the server-side compression decision (C10)
 	maxKeys    int
 }
 
@@ -148,8 +151,13 @@ func genCfg(t *rapid.T, p *genProfile) Cfg {
 		// small body_max makes "append to an earlier, not full file" a frequent GC destination
 		c.BodyMax = rapid.SampledFrom([]int64{300, 512, 512, 1024, 4096}).Draw(t, "bodymax_tiny")
 	}
+	if p.compress {
+		c.DataFileMax = rapid.SampledFrom([]int64{256 << 10, 8 << 20, 4000 << 20}).Draw(t, "dfm_c")
+		c.BodyMax = 100 << 10
+	}
 	if p.bigValues {
 		c.BodyMax = 50 << 20
+		c.DataFileMax = 4000 << 20
 	}
 	// implicit precondition of every deployment (4000M files, 50M bodies): a data file holds at least one record of
 	// maximal size; GC's destination bookkeeping relies on it (a record larger than a file makes the destination
@@ -185,6 +193,10 @@ func genCfg(t *rapid.T, p *genProfile) Cfg {
 			c.Groups = append(c.Groups, grp)
 			next += sz
 		}
+	}
+	if p.cfgHook != nil {
+		p.cfgHook(t, &c)
+		return c
 	}
 	if c.NumBucket > 1 && rapid.IntRange(0, 3).Draw(t, "partial") == 0 {
 		// serve a subset of the buckets
@@ -242,6 +254,42 @@ func genValue(t *rapid.T, c *Cfg, keyLen int, big bool, label string) verifkit.V
 	return verifkit.ValSpec{Class: class, Size: size, Salt: rapid.Uint32Range(0, 40).Draw(t, label+"salt")}
 }
 
+// genValueCompress draws values around the compression decision thresholds: record size 256, probe size 10 KB,
+// ratio 0.7, sniffed media types, client-compressed flag (set by the caller), up to MBs in the thorough tier.
+func genValueCompress(t *rapid.T, c *Cfg, keyLen int, big bool) verifkit.ValSpec {
+	class := rapid.SampledFrom([]string{"mix", "mix", "mix", "text", "text", "periodic", "const", "headrand", "tailrand", "random",
+		"wav", "mp3", "wavlike", "crlf"}).Draw(t, "class")
+	hdr := verifkit.RecHeader + keyLen
+	var size int
+	switch rapid.IntRange(0, 9).Draw(t, "sizeclass") {
+	case 0, 1:
+		size = 256 - hdr + rapid.IntRange(-3, 40).Draw(t, "d")
+	case 2:
+		size = rapid.IntRange(200, 3000).Draw(t, "size")
+	case 3, 4:
+		size = 10240 + rapid.IntRange(-400, 400).Draw(t, "d")
+	case 5:
+		size = rapid.IntRange(10241, 40000).Draw(t, "size")
+	case 6:
+		size = rapid.IntRange(0, 300).Draw(t, "size")
+	case 7:
+		if big {
+			size = rapid.IntRange(60000, 4<<20).Draw(t, "size")
+		} else {
+			size = rapid.IntRange(3000, 60000).Draw(t, "size")
+		}
+	default:
+		size = rapid.IntRange(257, 1200).Draw(t, "size")
+	}
+	if size < 0 {
+		size = 0
+	}
+	if int64(size) > c.BodyMax {
+		size = int(c.BodyMax)
+	}
+	return verifkit.ValSpec{Class: class, Size: size, Salt: rapid.Uint32Range(0, 40).Draw(t, "salt")}
+}
+
 func genFlag(t *rapid.T, label string) uint32 {
 	switch rapid.IntRange(0, 7).Draw(t, label+"flagclass") {
 	case 0, 1, 2, 3:
@@ -293,6 +341,10 @@ func genOp(t *rapid.T, c *Cfg, p *genProfile, kinds []string, inGrp []bool) Op {
 			op.V = genValue(t, c, len(c.Keys[op.K]), p.bigValues, "")
 			op.Flag = genFlag(t, "")
 		}
+		if p.compress && mode > 3 {
+			op.V = genValueCompress(t, c, len(c.Keys[op.K]), p.bigValues)
+			op.Flag = rapid.SampledFrom([]uint32{0, 0, 0, 0, FLAG_CLIENT_COMPRESS, 1, 0xfffeffef}).Draw(t, "cflag")
+		}
 		if !p.noExplicit && !inGrp[op.K] && rapid.IntRange(0, 3).Draw(t, "explicit") == 0 {
 			switch rapid.IntRange(0, 5).Draw(t, "revmode") {
 			case 0, 1, 2, 3:
@@ -333,6 +385,12 @@ func genOp(t *rapid.T, c *Cfg, p *genProfile, kinds []string, inGrp []bool) Op {
 func opKinds(p *genProfile) []string {
 	kinds := []string{"set", "set", "set", "set", "set", "set", "set", "get", "get", "get", "get", "delete", "delete", "incr",
 		"flush", "flush", "dumphints", "rotate", "rotate"}
+	if p.compress {
+		kinds = []string{"set", "set", "set", "set", "get", "get", "flush", "flush", "delete"}
+	}
+	if p.kinds != nil {
+		kinds = append([]string{}, p.kinds...)
+	}
 	if p.park {
 		kinds = append(kinds, "release")
 	}
